@@ -4,7 +4,10 @@ writes a Markdown table (stdout) + JSON (argument 1).  Nothing in /repo or /veri
 import json, os, re, subprocess, sys
 V = os.path.dirname(os.path.dirname(os.path.abspath(__file__)))
 rows = []
+only = [x for x in os.environ.get("SEED_ONLY", "").split(",") if x]   # optional: run a subset
 for sid in sorted(os.listdir(os.path.join(V, "seeded"))):
+    if only and sid not in only:
+        continue
     meta = json.load(open(os.path.join(V, "seeded", sid, "meta.json")))
     prop = meta["breaks_property"]
     p = subprocess.run([os.path.join(V, "tools", "seed_iso.sh"), sid, prop], capture_output=True, text=True)
